@@ -297,6 +297,18 @@ lzma_decode(void *coder_ptr, lzma_dict *restrict dictptr,
 	// is known, eopm_is_valid may be set to true later.
 	bool eopm_is_valid = coder->uncompressed_size == LZMA_VLI_UNKNOWN;
 
+	// If all of the known uncompressed size has already been decoded and
+	// we are resuming in the middle of a symbol, then the previous call
+	// ran out of input after it had passed the end-of-stream test at
+	// SEQ_IS_MATCH below and set eopm_is_valid = true. That decision must
+	// survive across calls. (Resuming at SEQ_LITERAL_WRITE, SEQ_SHORTREP,
+	// or SEQ_COPY with uncompressed_size == 0 isn't possible because
+	// those return LZMA_DATA_ERROR at the end of this function.)
+	if (coder->uncompressed_size == 0 && coder->allow_eopm
+			&& coder->sequence != SEQ_NORMALIZE
+			&& coder->sequence != SEQ_IS_MATCH)
+		eopm_is_valid = true;
+
 	// If uncompressed size is known and there is enough output space
 	// to decode all the data, limit the available buffer space so that
 	// the main loop won't try to decode past the end of the stream.
